@@ -741,10 +741,11 @@ func (fr *Frame) appendSlice(s *State, a, b *Val, st *types.Slice, pos token.Pos
 	oldA := fmt.Sprintf("(select %s (sl_ref %s))", h, a.S)
 	oldB := fmt.Sprintf("(select %s (sl_ref %s))", h, b.S)
 	// contents: positions [off, off+la) as before (from a); [off+la, off+total) from b (memmove semantics: source read before write)
-	s.assume(fmt.Sprintf("(forall ((i Int)) (! (=> (and (<= 0 i) (< i %s)) (= (select %s (ix %s i)) (select %s (ix (sl_off %s) i)))) :pattern ((select %s (ix %s i)))))",
-		la, newArr, resOff, oldA, a.S, newArr, resOff))
-	s.assume(fmt.Sprintf("(forall ((i Int)) (! (=> (and (<= 0 i) (< i %s)) (= (select %s (ix %s (+ %s i))) (select %s (ix (sl_off %s) i)))) :pattern ((select %s (ix %s (+ %s i))))))",
-		lb, newArr, resOff, la, oldB, b.S, newArr, resOff, la))
+	s.assume(fmt.Sprintf("(forall ((i Int)) (! (=> (and (<= 0 i) (< i %s)) (= (select %s (ix %s i)) (select %s %s))) :pattern ((select %s (ix %s i)))))",
+		la, newArr, resOff, oldA, elemAddr(a, "i"), newArr, resOff))
+	// (stated over the absolute position j so that the trigger is a plain element read of the result)
+	s.assume(fmt.Sprintf("(forall ((j Int)) (! (=> (and (<= %s j) (< j %s)) (= (select %s (ix %s j)) (select %s %s))) :pattern ((select %s (ix %s j)))))",
+		la, total, newArr, resOff, oldB, elemAddr(b, fmt.Sprintf("(- j %s)", la)), newArr, resOff))
 	// in place: cells outside the written window keep their old content
 	s.assume(fmt.Sprintf("(=> %s (forall ((j Int)) (! (=> (or (< j (+ %s %s)) (>= j (+ %s %s))) (= (select %s j) (select %s j))) :pattern ((select %s j)))))",
 		fits, resOff, la, resOff, total, newArr, oldA, newArr))
